@@ -23,7 +23,9 @@ Definition wide (p : Z) (a : approx) : bool := p <? handed_bits a.
 (** the class of F06, as the harness observes it through with_base_and_precision::<2>(p) *)
 Definition wide_class (p : Z) (m : mode) (B s e : Z) : bool :=
   if (e <? 0) && (- 38 <=? e) && negb (s =? 0)
-     && (ndigits 2 s <=? p + ndigits 2 (B ^ (- e)))      (* else: exact division, rounded once *)
+     && (ndigits 2 (fst (fnormalize 2 s 0)) <=? p + ndigits 2 (fst (fnormalize 2 (B ^ (- e)) 0)))
+        (* the digit counts of the NORMALISED operands (Repr::new strips the trailing zero bits first); else: exact
+           division, rounded once *)
   then match conv_div_route p m B s e with Ok a => wide p a | _ => false end
   else false.
 
